@@ -9,7 +9,7 @@ from vf.core import EnumPart, HypPart, Oracle
 
 ID = "C20"
 LEVEL = "exploration"
-TECHNIQUE = "exhaustive enumeration of small finite domains + Hypothesis sampling of large values, each against a reference definition written from the documented contract"
+TECHNIQUE = "exhaustive enumeration of small finite domains + Hypothesis sampling of large values, each against a reference definition written from the documented contract; number formatting (format_value) against its documented layout and read back through value_to_int"
 RULE = (
     "strings: every string of length <= L (L=5 quick, 6 thorough) over the 16-symbol alphabet "
     "'0179afxbo_ul-+ X' is given to value_to_int and to a hand-written reference recogniser; "
@@ -538,6 +538,42 @@ def run_bytes_hyp(case, o: Oracle) -> None:
     o.nontrivial(n > 0)
 
 
+# ------------------------------------------------------------------ number formatting (what get_config writes is read back by value_to_int)
+def _format_case():
+    size = st.one_of(st.integers(1, 64), st.sampled_from([1, 4, 7, 8, 9, 16, 31, 32, 33, 64, 128, 256, 384, 512]))
+    return size.flatmap(lambda n: st.fixed_dictionaries({
+        "size": st.just(n),
+        "value": st.one_of(st.integers(0, (1 << n) - 1), st.sampled_from([0, 1, (1 << n) - 1, 1 << (n - 1)]), st.integers(0, (1 << (n + 9)) - 1)),
+        "delimiter": st.sampled_from(["_", "_", "_", ""]), "prefix": st.sampled_from([True, True, True, False]),
+    }))
+
+
+def run_format(case, o: Oracle) -> None:
+    from spsdk.utils.misc import format_value, value_to_int
+
+    size, value, delim, prefix = case["size"], case["value"], case["delimiter"], case["prefix"]
+    binary = bool(size % 8)
+    digits = (bin(value)[2:] if binary else "%x" % value).zfill(size if binary else size // 8 * 2)
+    groups = []
+    while digits:  # groups of four digits counted from the right
+        groups.insert(0, digits[-4:])
+        digits = digits[:-4]
+    want = (("0b" if binary else "0x") if prefix else "") + delim.join(groups)
+    o.label("format:" + ("bin" if binary else "hex"), "format_wider_than_size" if value >> size else "format_fits")
+    o.nontrivial(True)
+    o.key(("format", size, value, delim, prefix))
+    got = None
+    with o.spsdk("format", "format_value"):
+        got = format_value(value, size, delim, prefix)
+    if got is None:
+        return
+    o.eq("format", "text", got, want)
+    if prefix:
+        # the text is a number of the documented grammar (prefix, digits, underscores) and means the value
+        with o.spsdk("format", "read_back"):
+            o.eq("format", "value_to_int", value_to_int(got), value)
+
+
 def _bcd():
     comp = st.integers(0, 9999)
     return st.fixed_dictionaries({"nums": st.lists(comp, min_size=3, max_size=3), "pad": st.lists(st.integers(1, 4), min_size=3, max_size=3),
@@ -639,6 +675,7 @@ def parts(ctx):
         HypPart("spelling", _spelling(), run_spelling, {"quick": 3000, "thorough": 150000}),
         HypPart("bytes_hyp", _bytes_strategy(), run_bytes_hyp, {"quick": 1500, "thorough": 60000}),
         HypPart("bcd", _bcd(), run_bcd, {"quick": 1000, "thorough": 40000}),
+        HypPart("format", _format_case(), run_format, {"quick": 3000, "thorough": 120000}),
         HypPart("enum", _enum_case(), run_enum, {"quick": 500, "thorough": 20000}),
         HypPart("align_big", _align_big(), run_align_big, {"quick": 2000, "thorough": 100000}),
     ]
